@@ -293,6 +293,12 @@ def check(run):
             bad = bad or b
     run.obligation("single node (in-process raft, LevelDB, snapshots): %d scenarios, %d acknowledged messages, %d kills/restarts/snapshots; every acknowledged message delivered exactly once, in order" % (nscen, nacked, nfaults),
                    bad is None, bad[1] if bad else "")
+    # fail-over to a node that lags behind the client's position (HTTP level, shared with C04)
+    import C04
+    hbad, hn = C04.http_stage(run)
+    run.obligation("resume on a lagging node after fail-over: exactly the messages after lastseen (%d resumes)" % hn, hbad is None, hbad[1] if hbad else "")
+    if hbad and not bad:
+        bad = ("harness" if hbad[0] == "harness" else "resume-" + hbad[0], hbad[1], hbad[2])
     # three nodes of real binaries
     nbad, nnet, nlen = None, (1 if run.tier == "quick" else 4), (14 if run.tier == "quick" else 45)
     okn, nexe, bindir, nout = build_net(run)
